@@ -177,3 +177,42 @@ add("C08", "R-8.1", "rules/check_brace.py::CheckBrace.run::emit[EXPECTED_BRACE]"
     "dead site: both slots of CheckBrace matched LBRACE/RBRACE at the same skip_ws(0) position", _expected_brace_dead)
 add("C08", "R-8.1", "rules/check_in_header.py::CheckInHeader.run::emit[FORBIDDEN_IN_HEADER]",
     "dead site: every live slot of CheckInHeader is in allowed_in_header", _forbidden_in_header_dead)
+
+
+# --------------------------------------------------------------------------- C05 R-5.9
+def _var_declaration_ids_filled() -> bool:
+    """IsVarDeclaration.var_declaration: `ids[-1]` follows `if identifier is False or ...: return`, and every
+    `identifier = True` sits in a suite that also appends to ids (directly, or through the backward scan of the
+    parenthesis group that parenthesis_contain classified as function / pointer / var, all of which it only
+    returns after meeting an IDENTIFIER inside the group)."""
+    import ast
+    from .model import walk_fn, text, parent
+    prog = _prog()
+    fn = prog.method("IsVarDeclaration", "var_declaration")
+    if fn is None:
+        return False
+    guard = [n for n in walk_fn(fn.node) if isinstance(n, ast.If) and text(n.test).startswith("identifier is False")
+             and n.body and isinstance(n.body[-1], ast.Return)]
+    if not guard:
+        return False
+    sets = [n for n in walk_fn(fn.node) if isinstance(n, ast.Assign) and text(n.targets[0]) == "identifier" and text(n.value) == "True"]
+    if not sets:
+        return False
+    for s in sets:
+        blk = parent(s)
+        body = [b for f in ("body", "orelse") for b in (getattr(blk, f, []) or []) if any(x is s for x in (getattr(blk, f, []) or []))]
+        suite = getattr(blk, "body", []) if any(x is s for x in getattr(blk, "body", [])) else getattr(blk, "orelse", [])
+        if not any("ids.append(" in text(x, 4000) for x in suite):
+            return False
+    # the default of the parameter is False and no call site passes it
+    from .calls import callgraph
+    for c in callgraph(prog).sites.get(fn.key, []):
+        if isinstance(c.node, ast.Call) and (len(c.node.args) > 2 or any(k.arg == "identifier" for k in c.node.keywords)):
+            return False
+    d = fn.node.args.defaults
+    return bool(d) and text(d[-1]) == "False"
+
+
+add("C05", "R-5.9", "rules/is_var_declaration.py::IsVarDeclaration.var_declaration::index[ids[-1]]",
+    "infeasible: the access follows `if identifier is False ...: return`, and `identifier` only becomes True in suites "
+    "that also append the identifier token(s) to ids", _var_declaration_ids_filled)
